@@ -256,6 +256,15 @@ def rule_payload(ctx):
     ctx.adopt(scratch, {"C10.bij": "C09.payload", "C10.has": "C09.payload", "C10.top": "C09.payload"})
 
 
+def rule_state(ctx):
+    """the stanza tree itself: attributes / children containers of a node are per node (a shared empty dict collects the
+    attributes of every node that was created without any)"""
+    from ..state import per_instance_state, shared_defaults
+    n = per_instance_state(ctx, "C09.state", ctx.repo.cls("yowsup/structs/protocoltreenode.py", "ProtocolTreeNode"))
+    ctx.units["C09.state_attrs"] = n
+    shared_defaults(ctx, "C09.state", ["yowsup/structs/"])
+
+
 def rule_wire(ctx):
     """'survives the codec unchanged': given well-typed tags / attributes / data (C09.codec), a stanza survives iff the
     codec is a round trip - that is C01's rule set, adopted here so that a codec change is reported against C09 too."""
@@ -278,6 +287,7 @@ def rule_wire(ctx):
 def run(ctx):
     ctx.rule("C09.wire", "the codec the stanzas pass through is a round trip (C01.int/class/tags/dbl/pack/unpack adopted)", floor=40)
     ctx.rule("C09.payload", "the payload converter message entities are parsed and re-serialised through is a bijection (C10.bij/has/top adopted)", floor=100)
+    ctx.rule("C09.state", "a node's attribute / child containers are fresh per node; no shared default objects in structs", floor=2)
     ctx.rule("C09.fresh", "containers filled per element inside converter loops are allocated per element", floor=5)
     ctx.rule("C09.ret", "converters return an entity / a node on every path", floor=40)
     ctx.rule("C09.same", "written values are fed by the same (path, key) of the input", floor=40)
@@ -402,3 +412,4 @@ def rule_codec_sent(ctx, repo):
     ctx.guarded("C09.wire", rule_wire, ctx)
     ctx.guarded("C09.fresh", rule_fresh, ctx)
     ctx.guarded("C09.payload", rule_payload, ctx)
+    ctx.guarded("C09.state", rule_state, ctx)
